@@ -45,9 +45,15 @@ lines, meta = [], []
 tries = 0
 while len(meta) < want and tries < 40 * want:
     tries += 1
+    library = False
     if tries % 12 == 0:
         geom = snellexact.grazing_geometry(rng)      # a block leg within 2 degrees of grazing
         chk.count(near_grazing_leg=geom is not None)
+    elif tries % 6 == 2:
+        # flat walls: the interfaces, their normal-side flags and kinds and the paths come from the LIBRARY
+        # (block_in_immersion.make_interfaces / make_paths, 0..2 wall reflections), only the rays are set by hand
+        geom = snellexact.random_geometry(rng, max_tilt_deg=0.0, max_inc_deg=86.0)
+        library = geom is not None and geom["immersion"] and geom["nlegs"] >= 2
     else:
         geom = snellexact.random_geometry(rng, max_inc_deg=86.0)
     if geom is None or not geom["immersion"] or geom["nlegs"] < 2:
@@ -64,7 +70,10 @@ while len(meta) < want and tries < 40 * want:
     chk.count(rigid_rotation=("none" if rigid is None else "about z" if u_ < 0.3 else "yaw-pitch-roll"))
     spin = rng.uniform(-np.pi, np.pi, geom["nlegs"] + 1) if rng.random() < 0.5 else None
     chk.count(local_frames="spun about their normals" if spin is not None else "tangent in the plane of incidence")
-    if rng.random() < 0.3:
+    if library:
+        path = snellexact.library_path(geom, arim, attenuation=att)
+        chk.count(interfaces_built_by="block_in_immersion.make_interfaces / make_paths", rays_replaced_on_the_same_path=False)
+    elif rng.random() < 0.3:
         # HISTORY on the Path object: a first (coarse) ray tracing through wrongly placed wall samples is looked at, then
         # the rays of the SAME path are replaced by the exact ones; every term must be that of the current rays
         path = snellexact.arim_path(geom, arim, physical=True, attenuation=att, decoy=float(rng.uniform(0.3e-3, 3e-3)), rigid=rigid, spin=spin)
@@ -187,34 +196,6 @@ for m, o in zip(meta, outs):
 samples = [{"modes": m["geom"]["modes"], "inc": m["geom"]["inc"], "legs": m["geom"]["legs"],
             "rev_displacement_impl": m["impl"][("rev", "displacement")], "model": m["model"]["rev:displacement"]}
            for m in meta[:3]]
-# paths, interfaces and normal-side flags built by the LIBRARY (block_in_immersion.make_interfaces / make_paths, up to two wall
-# reflections) and rays traced on finely sampled walls (2000 points): they obey Snell's law only to the wall sampling, so the
-# comparison is loose -- 8 % of the largest modulus over all paths of the set-up (measured on the unchanged code: at most
-# 2 %) -- enough to see a wrongly declared normal side (pi - theta instead of theta: 19 % .. 44 % measured)
-import arimgen
-lib_n = 0
-for t_ in range(2 if Q else 10):
-    S_ = arimgen.immersion_setup(rng, max_refl=2, wall_points=2000, numelements=2, numscat=2)
-    for unit in ("stress", "displacement"):
-        res_ = {}
-        for name_, p_ in S_["paths"].items():
-            rp_ = p_.reverse()
-            with np.errstate(all="ignore"):
-                a_ = np.asarray(model.reverse_transmission_reflection_for_path(p_, arim.ray.RayGeometry.from_path(p_), unit=unit))
-                b_ = np.asarray(model.transmission_reflection_for_path(rp_, arim.ray.RayGeometry.from_path(rp_), unit=unit)).T
-            ok_ = np.isfinite(a_) & np.isfinite(b_)
-            if ok_.any():
-                res_[name_] = (float(np.max(np.abs(a_[ok_] - b_[ok_]))), float(np.max(np.abs(b_[ok_]))), a_, b_, p_)
-                lib_n += int(ok_.sum())
-        gs_ = max(v[1] for v in res_.values()) if res_ else 1.0
-        for name_, (d_, _, a_, b_, p_) in res_.items():
-            if d_ > 8e-2 * gs_:
-                chk.violation(f"library-path:{unit}", f"library-built path {name_}: reverse transmission-reflection ({unit}) differs from the "
-                              "direct product on path.reverse() by more than the wall sampling allows (normal-side flags?)",
-                              dict(path=name_, unit=unit, reverse=a_, direct_of_reversed=b_, largest_modulus_of_the_setup=gs_,
-                                   flags=[(i.are_normals_on_inc_rays_side, i.are_normals_on_out_rays_side) for i in p_.interfaces]))
-    chk.count(library_built_paths=len(S_["paths"]))
-
 chk.finish(
     evaluations=len(meta) * 11,
     distinct_nontrivial=len(nontrivial),
